@@ -249,7 +249,7 @@ pub fn parse_fun_arg(it: &mut LexIterator) -> ParseResult {
 pub fn parse_forward(it: &mut LexIterator) -> ParseResult<Vec<AST>> {
     let start = it.start_pos("forward")?;
     let mut forwarded: Vec<AST> = vec![];
-    it.peek_while_not_token(&Token::NL, &mut |it, _| {
+    it.peek_while_not_tokens(&[Token::NL, Token::Dedent], &mut |it, _| {
         forwarded.push(*it.parse(&parse_id, "forward", start)?);
         it.eat_if(&Token::Comma);
         Ok(())
